@@ -224,9 +224,11 @@ def check(case, ctx):
     nB = NLP(BB.ocp)
     from vlib.build import constraint_mx
     BB.stage = BB.ocp
-    if ca.MX(constraint_mx(BB, BB.ocp, sp["constraints"][0])).is_constant():
-        # CasADi itself reduced the relation to a constant (c + x*x >= c is "1", x - x <= -1 is "0"): nothing to certify,
-        # and rockit refusing a never-satisfied relation is right
+    c0 = sp["constraints"][0]
+    parts0 = [c0["lhs"][0]] + [c0[k][0] for k in ("rhs", "lb", "ub") if k in c0]
+    if ca.MX(constraint_mx(BB, BB.ocp, c0)).is_constant() or E.lost_offsets(parts0, signals_too=True, live_ops=("sym", "infder")):
+        # CasADi itself reduced the relation to a constant (c + x*x >= c is "1", x - x <= -1 is "0"), or every state term cancels
+        # (-1 - (x + (inert(u) - x)) <= c): nothing to certify, and rockit refusing such a relation is right
         ctx.count("degenerate_relation")
         return []
     try:
